@@ -57,6 +57,7 @@ def snapshot(chart, inp):
         'edges': sorted((str(u), str(v), sorted((str(k), repr(x)) for k, x in d.items())) for u, v, d in g.edges(data=True)),
         'node_map': sorted((str(k), v.__name__) for k, v in dag.node_map.items()),
         'io': [dag.input_node, dag.output_node],
+        'graph_attrs': sorted((str(k), repr(v)) for k, v in g.graph.items()),       # graph-level attributes (name, ...)
     }, sort_keys=True)
     classes = json.dumps(sorted(
         (str(k), sorted((a, repr(getattr(v, a, None))) for a in ('attempts', 'delay', 'exceptions', 'use_default', 'tags',
